@@ -98,6 +98,10 @@ type world struct {
 	acc    []access
 	V      *kit.Violation
 	events uint64
+	// control-script runs (C18): no data model, moves may be lost to a reset
+	noModel   bool
+	lost      int
+	onAckHook func(reqID uint64)
 }
 
 func (w *world) fail(sig, f string, a ...any) {
@@ -236,8 +240,22 @@ func (d driver) Tick() bool {
 			continue
 		}
 
-		if w.acked[mi] {
+		if w.acked[mi] && !w.noModel {
 			w.fail("C23:move-acknowledged-twice", "move #%d was acknowledged twice", mi)
+			continue
+		}
+
+		if w.onAckHook != nil {
+			w.onAckHook(rsp.RspTo)
+		}
+
+		if w.noModel {
+			if w.acked[mi] {
+				continue // released by a reset, answered all the same
+			}
+
+			w.acked[mi] = true
+
 			continue
 		}
 
@@ -396,7 +414,10 @@ func (h capHook) Func(ctx hooking.HookCtx) {
 type nopTracer struct{ tracing.NopTracer }
 
 // run builds and executes the configuration.
-func run(c *Cfg) (*world, bool) {
+func run(c *Cfg) (*world, bool) { return runWith(c, nil) }
+
+// runWith lets the caller add components (a control driver, monitors) before the run.
+func runWith(c *Cfg, extra func(w *world, mkPort func(messaging.Component, string, int) messaging.Port, conn func(string, ...messaging.Port))) (*world, bool) {
 	timing.ResetIDGenerator()
 	timing.UseSequentialIDGenerator()
 	tracing.VerifResetRegistries()
@@ -475,6 +496,10 @@ func run(c *Cfg) (*world, bool) {
 	conn("TopConn", w.top, w.dm.GetPortByName("Top"))
 	conn("InConn", append([]messaging.Port{w.dm.GetPortByName("Inside")}, inPorts...)...)
 	conn("OutConn", append([]messaging.Port{w.dm.GetPortByName("Outside")}, outPorts...)...)
+
+	if extra != nil {
+		extra(w, mkPort, conn)
+	}
 
 	w.eng.AcceptHook(capHook{w})
 	w.drv.TickLater()
